@@ -1301,7 +1301,61 @@ func largeCases() []largeCase {
 	l["o2"] = "h1"
 	rgt["o3"] = "h1"
 	cs = append(cs, largeCase{"cluster300", l, rgt, small3, true})
+
+	// spread: 600 sequential ids (their hashes cover the whole hash space, both ends of it included) with
+	// differences of every kind, under divide factors that do not divide 2^64 (the sub-ranges of the top range are
+	// then uneven and the last one takes the remainder) next to some that do
+	odd := []param{{3, 1}, {3, 4}, {5, 3}, {6, 1}, {7, 4}, {10, 16}, {12, 2}, {255, 8}, {4, 2}, {8, 3}}
+	l = map[string]string{}
+	rgt = map[string]string{}
+	for i := 0; i < 600; i++ {
+		id := fmt.Sprintf("id-%d", i)
+		switch i % 7 {
+		case 1: // only local
+			l[id] = "h1"
+		case 2: // only remote
+			rgt[id] = "h1"
+		case 3: // changed, ours greater
+			l[id], rgt[id] = "h2", "h1"
+		case 4: // changed, theirs greater
+			l[id], rgt[id] = "h1", "h2"
+		default:
+			l[id], rgt[id] = "h1", "h1"
+		}
+	}
+	cs = append(cs, largeCase{"spread600-odd-factors", l, rgt, odd, true})
+	// the same factors on the two extreme 1/256 slices of the hash space only
+	l = map[string]string{}
+	rgt = map[string]string{}
+	for i, id := range edgeIds(60) {
+		switch i % 5 {
+		case 1:
+			l[id] = "h1"
+		case 2:
+			rgt[id] = "h1"
+		case 3:
+			l[id], rgt[id] = "h2", "h1"
+		default:
+			l[id], rgt[id] = "h1", "h1"
+		}
+	}
+	cs = append(cs, largeCase{"edges60-odd-factors", l, rgt, odd, true})
 	return cs
+}
+
+// edgeIds returns the first n ids "e<k>" whose xxhash top byte is 0x00 or 0xff, alternating (both ends of the hash
+// space, whatever the divide factor).
+func edgeIds(n int) []string {
+	var out []string
+	want := uint64(0)
+	for k := 0; len(out) < n; k++ {
+		id := fmt.Sprintf("e%d", k)
+		if ldu.H(id)>>56 == want {
+			out = append(out, id)
+			want ^= 0xff
+		}
+	}
+	return out
 }
 
 func elementsOf(m map[string]string) []ldiff.Element {
